@@ -83,7 +83,7 @@ def gen(rng, tier):
             'fourier': rng.random() < 0.85, 'nthread': rng.choice([1, 2, 3, 4, 5, 8, 16]),
             'sched': gen_sched(rng), 'compiled': rng.random() < 0.25,
             'prev_nthread': rng.choice([None, 1, 2, 5, 16]),
-            'huge': None, 'layout': rng.choice(['C', 'C', 'C', 'fortran', 'strided', 'readonly'])}
+            'huge': None, 'failed_call_before': rng.random() < 0.2, 'layout': rng.choice(['C', 'C', 'C', 'fortran', 'strided', 'readonly'])}
 
 
 def sweep(tier):
@@ -275,8 +275,16 @@ def run(case):
         site = 'bin_kppi'
         bump(out['probes'], 'pimax-%s-nyquist' % case['pimax_class'])
     s = case['sched']
+
+    def fail_first(T):
+        # history: a call with the same bins, poles and thread count that dies midway (a mesh one plane short of
+        # what n says) comes first; its own events are discarded, whatever it left behind is not
+        if case.get('failed_call_before') and n >= 2:
+            H.run(lambda: _call(ps, case, w[:n - 1], T), {'policy': 'static', 'strategy': 'serial'})
+    fail_first(1)
     res1, exc1, summ1 = H.run(lambda: _call(ps, case, w, 1), {'policy': 'static', 'strategy': 'serial'})
     oob1 = list(SIM.oob_events)
+    fail_first(case['nthread'])
     res, exc, summ = H.run(lambda: _call(ps, case, w, case['nthread']), s)
     out['steps'] = summ['steps'] + summ1['steps']
     bump(out['faults'], 'policy=' + s.get('policy', 'static'))
